@@ -107,6 +107,11 @@ type Bound struct {
 	Verdict Verdict
 	Reason  string         // first reason for Reject / Unspecified
 	Values  map[string]any // "<in>:<name>" -> typed value (nil = absent without default)
+	// Parsed: typed values of the parameters whose text could be parsed (whether or
+	// not they pass validation); ParseLevel: some rejection happened before
+	// validation (absence, emptiness, unparsable text, content type, routing).
+	Parsed     map[string]any
+	ParseLevel bool
 }
 
 func (b *Bound) set(v Verdict, reason string) {
@@ -216,10 +221,11 @@ func BindSimple(p J, raws []string, in string) (any, Verdict, string) {
 	}
 	t := str(p["type"])
 	cf := str(p["collectionFormat"])
+	if t == "array" && len(raws) == 1 && raws[0] == "" {
+		// `?a=` for an array: an empty array or one empty item? Swagger does not say
+		return nil, Unspecified, "array parameter present but empty"
+	}
 	if t == "array" && cf == "multi" {
-		if len(raws) == 1 && raws[0] == "" {
-			return emptyValue(p, required)
-		}
 		return bindItems(p, raws)
 	}
 	if len(raws) > 1 {
@@ -239,6 +245,8 @@ func BindSimple(p J, raws []string, in string) (any, Verdict, string) {
 func emptyValue(p J, required bool) (any, Verdict, string) {
 	allowEmpty := truthy(p["allowEmptyValue"])
 	switch {
+	case allowEmpty && p["default"] != nil:
+		return nil, Unspecified, "allowEmptyValue with a default: empty value or default?"
 	case allowEmpty && str(p["type"]) == "string" && p["enum"] == nil && p["minLength"] == nil && p["pattern"] == nil && str(p["format"]) == "":
 		return "", Accept, ""
 	case allowEmpty:
@@ -255,7 +263,7 @@ func bindScalar(p J, raw string) (any, Verdict, string) {
 		return nil, vd, why
 	}
 	if errs := Validate(J{}, withoutMeta(p), v, "value"); len(errs) > 0 {
-		return nil, Reject, errs[0]
+		return v, Reject, "validation " + errs[0]
 	}
 	return v, Accept, ""
 }
@@ -296,16 +304,22 @@ func bindItems(p J, parts []string) (any, Verdict, string) {
 		} else {
 			v, vd, w = bindScalar(items, part)
 		}
-		if vd == Reject {
+		if vd == Reject && !strings.HasPrefix(w, "validation ") {
 			return nil, Reject, w
+		}
+		if vd == Reject && worst == Accept {
+			worst, why = Reject, w
 		}
 		if vd == Unspecified {
 			worst, why = Unspecified, w
 		}
 		out = append(out, v)
 	}
-	if worst != Accept {
+	if worst == Unspecified {
 		return nil, worst, why
+	}
+	if worst == Reject {
+		return out, Reject, why
 	}
 	// array-level validations
 	arr := J{"type": "array"}
@@ -315,7 +329,7 @@ func bindItems(p J, parts []string) (any, Verdict, string) {
 		}
 	}
 	if errs := Validate(J{}, arr, out, "value"); len(errs) > 0 {
-		return nil, Reject, errs[0]
+		return out, Reject, "validation " + errs[0]
 	}
 	return out, Accept, ""
 }
@@ -392,10 +406,11 @@ func mediaType(ct string) string {
 
 // Bind evaluates a whole request against the operation it targets in doc.
 func Bind(doc J, r *Request) Bound {
-	b := Bound{Values: map[string]any{}}
+	b := Bound{Values: map[string]any{}, Parsed: map[string]any{}}
 	op := FindOp(doc, r.Template, r.Method)
 	if op == nil {
 		b.set(Reject, "no such operation")
+		b.ParseLevel = true
 		return b
 	}
 	hasBodyParam, hasForm := false, false
@@ -423,6 +438,7 @@ func Bind(doc J, r *Request) Bound {
 			b.set(Unspecified, "body without Content-Type")
 		} else if !ok {
 			b.set(Reject, "Content-Type "+ct+" not consumed")
+			b.ParseLevel = true
 		}
 	}
 	for _, p := range op.Params {
@@ -455,6 +471,7 @@ func Bind(doc J, r *Request) Bound {
 			if !r.HasBody || len(strings.TrimSpace(r.Body)) == 0 {
 				if truthy(p["required"]) {
 					b.set(Reject, "required body absent")
+					b.ParseLevel = true
 				}
 				b.Values[key] = nil
 				continue
@@ -462,6 +479,7 @@ func Bind(doc J, r *Request) Bound {
 			v, err := Decode([]byte(r.Body))
 			if err != nil {
 				b.set(Reject, "malformed JSON body")
+				b.ParseLevel = true
 				continue
 			}
 			if v == nil {
@@ -472,8 +490,9 @@ func Bind(doc J, r *Request) Bound {
 			if s == nil {
 				s = J{}
 			}
+			b.Parsed[key] = v
 			if errs := Validate(doc, s, v, "body"); len(errs) > 0 {
-				b.set(Reject, errs[0])
+				b.set(Reject, "validation "+errs[0])
 				continue
 			}
 			b.Values[key] = v
@@ -484,9 +503,17 @@ func Bind(doc J, r *Request) Bound {
 		v, vd, why := BindSimple(p, raws, in)
 		if vd != Accept {
 			b.set(vd, fmt.Sprintf("%s: %s", key, why))
+			if vd == Reject && strings.HasPrefix(why, "validation ") {
+				b.Parsed[key] = v
+			} else if vd == Reject {
+				b.ParseLevel = true
+			}
 			continue
 		}
 		b.Values[key] = v
+		if raws != nil {
+			b.Parsed[key] = v
+		}
 	}
 	return b
 }
